@@ -18,6 +18,7 @@ import LinVerif.Lemmas.C14Stream
 import LinVerif.Lemmas.C14Pool
 import LinVerif.Lemmas.C14BufAlias
 import LinVerif.Lemmas.C14StreamExt
+import LinVerif.Lemmas.C14SnappyReuse
 
 namespace LinVerif.Props.C14
 open LinVerif LinVerif.Bits LinVerif.Varint
@@ -916,6 +917,20 @@ theorem byteslice2uint32_roundtrip (w v : Nat) (hw : 1 ≤ w ∧ w ≤ 4) (hv : 
     FixedOffset.byteSlice2Uint32 (FixedOffset.leBytes w v) = v :=
   FixedOffset.byteSlice2Uint32_leBytes w v hw hv
 
+/-- **`FixedOffsetEncoder.Write(writer)` and a failing writer.** The `writer.Write` calls, concatenated, are
+`MarshalBinary()`; against a writer that fails its `k`-th call `Write` reports the error exactly when that call
+is reached, and what the writer took until then is the first `k` chunks (a prefix of the table, never more) —
+no error is swallowed, nothing is written after a failure. -/
+theorem fixedoffset_write_error_paths (e : FixedOffset.Enc) (k : Nat) :
+    e.chunks.flatten = e.marshal ∧
+    ((e.writeTo k).2 = true ↔ k < e.chunks.length) ∧
+    (e.writeTo k).1 = e.chunks.take k ∧
+    (e.chunks.length ≤ k → ((e.writeTo k).1).flatten = e.marshal ∧ (e.writeTo k).2 = false) := by
+  refine ⟨FixedOffset.chunks_flatten e, by simp [FixedOffset.Enc.writeTo], rfl, ?_⟩
+  intro h
+  refine ⟨?_, by simp [FixedOffset.Enc.writeTo]; omega⟩
+  simp only [FixedOffset.Enc.writeTo, List.take_of_length_le h, FixedOffset.chunks_flatten]
+
 example : ((Stream.Reader.fresh ((([Put.i16 (-2), .bytes [7, 8], .sv (-300), .u64 5, .i64 (-1)]).foldl Stream.Writer.put
     Stream.Writer.fresh).buf)).readAllLike [Put.i16 0, .bytes [0, 0], .sv 0, .u64 0, .i64 0]).1
     = [Put.i16 (-2), .bytes [7, 8], .sv (-300), .u64 5, .i64 (-1)] := by decide
@@ -1232,6 +1247,40 @@ An encoder that is handed a `[]byte` (snappy chunk writer `Write(row)`, `stream`
 into one reused scratch buffer and hand `encoder.Bytes()` views of pooled encoders to `WriteField` before they
 reset the encoder. Model: `Model/BufAlias.lean` (caller memory + what the writer holds); which of the two
 semantics a method has is read off the regenerated sinks of its slice parameter. -/
+
+section SnappyReaderReuse
+open SnappyReuse
+
+/-- **A reused snappy reader decodes every chunk as a new reader would**, after ANY history of `Uncompress`
+calls on any inputs — truncated, corrupt, with trailing garbage, i.e. calls that failed half way and left
+unread input, partial output and a sticky library error behind: the deferred function re-initialises all three
+(read from the source), so nothing of an earlier call reaches the next one. With the library contract
+(`ExternalCodec`) the chunk then decodes to what was written. -/
+theorem snappy_reader_history_irrelevant (lib : Lib) (hist : List (List Nat)) (data : List Nat) :
+    ((SnappyReuse.Reader.run lib {} hist).uncompress lib data).1 = (({} : SnappyReuse.Reader).uncompress lib data).1 ∧
+    SnappyReuse.Reader.run lib {} hist = {} := by
+  have h := run_state lib hist {} rfl
+  rw [h]; exact ⟨rfl, rfl⟩
+
+/-- TIE: the deferred function of `snappyReader.Uncompress` resets the input buffer, the output buffer and the
+library reader -/
+theorem snappy_reader_deferred_expected :
+    Generated.C14.snappyReaderUncompressDeferred = ["compressed.Reset", "decompressed.Reset", "reader.Reset"] := rfl
+
+namespace Neg
+
+/-- without `compressed.Reset` in the deferred function the unread rest of a failed chunk is decoded in front of
+the next chunk: a library that fails on a leading 0xFF and otherwise copies its input returns `[0xFF, 7]`… as an
+error for the good chunk `[7]` after the bad chunk `[0xFF]` -/
+theorem snappy_reader_without_input_reset_is_stale :
+    let lib : Lib := ⟨fun inp => match inp with | 255 :: t => ([], true, 255 :: t) | l => (l, false, [])⟩
+    let calls := ["decompressed.Reset", "reader.Reset"]
+    (((({} : SnappyReuse.Reader).uncompressWith calls lib [255]).2).uncompressWith calls lib [7]).1 = none ∧
+    (({} : SnappyReuse.Reader).uncompressWith calls lib [7]).1 = some [7] := by decide
+
+end Neg
+
+end SnappyReaderReuse
 
 section CallerBuffers
 open BufAlias
